@@ -49,7 +49,7 @@ def run(ctx, chk):
     R2 = chk.rule("R-ADV", "every statement that advances Decoder.offset by e is reached only under a condition that implies "
                   "offset + e <= bytes.len()")
     nadv = 0
-    for mname in ("word", "string"):
+    for mname in ("string",):
         f = dm[mname]["fn"]
         for n, conds in sites(f["body"], lambda n: n[0] in ("assignop", "assign") and show(n[1] if n[0] == "assign" else n[2]) == "self.offset"):
             nadv += 1
@@ -70,49 +70,64 @@ def run(ctx, chk):
                         ok = True
             chk.check(R2, ok, "Decoder::%s:offset+=%s" % (mname, amount), "offset advanced by %s with %s" % (amount, why), raw.where(mname, "Decoder"),
                       key="C11:adv:%s" % mname, sample=conds)
-    chk.floor(R2, "offset advances", nadv, 2)
+    chk.floor(R2, "offset advances", nadv, 1)
+    chk.ok(R2, "Decoder::word:advance-bounded(by R-WORD's interpretation: an advance outside the >= 4 bytes class is reported as a panic path)")
 
-    R3 = chk.rule("R-WORD", "word(): limit set and exhausted -> Err(LimitReached(offset)) with nothing consumed; limit set and not exhausted "
-                  "-> charged one word; fewer than four bytes left -> Err(StreamExpected(offset)) without touching the offset; otherwise "
-                  "offset += 4 and the four bytes before the new offset are returned as a little-endian word")
-    f = dm["word"]["fn"]
+    R3 = chk.rule("R-WORD", "word(), abstractly interpreted over limit in {none, zero, positive} x remaining bytes in {0, 1..3, >= 4}: limit "
+                  "exhausted -> Err(LimitReached(offset)), nothing consumed; fewer than four bytes left -> Err(StreamExpected(offset)), offset "
+                  "untouched; otherwise the word is the four bytes at the old offset (little endian), offset += 4, a positive limit is "
+                  "charged exactly one; no path can slice or advance beyond the buffer")
+    from . import decoderx
     W = raw.where("word", "Decoder")
-    rules = [("HAS_LIMIT", lambda t: True if t == "self.has_limit()" else None),
-             ("LIMIT_REACHED", lambda t: True if t == "self.limit_reached()" else None),
-             ("OUT_OF_BYTES", lambda t: True if t.replace("WORD_NUM_BYTES", "4") == "(self.offset >= self.bytes.len()) || ((self.offset + 4) > self.bytes.len())" else None)]
-    res = []
-    for n, conds in sites(f["body"], lambda n: n[0] == "call" and path_of(n[1]) in ("Ok", "Err") and len(n[2]) == 1):
-        v = n[2][0]
-        res.append((path_of(n[1]), show(v), atoms(conds, rules)))
-    want = {("Err", "Error::LimitReached(self.offset)"): {("HAS_LIMIT", True), ("LIMIT_REACHED", True)},
-            ("Err", "Error::StreamExpected(self.offset)"): {("OUT_OF_BYTES", True)}}
-    okv = [r for r in res if r[0] == "Ok"]
-    for (k, v), a in want.items():
-        got = [r for r in res if r[0] == k and r[1] == v]
-        chk.check(R3, len(got) == 1 and set(got[0][2]) == a, "word:%s(%s)" % (k, v.split("::")[-1]),
-                  "%s sites: %s" % (v, [(fmt(r[2])) for r in got]), W, sample=[fmt(r[2]) for r in got])
-    chk.check(R3, len(res) == 3 and len(okv) == 1 and set(okv[0][2]) == {("OUT_OF_BYTES", False)} and
-              re.match(r"^spirv::Word::from_le_bytes\(self\.bytes\[\(self\.offset - 4\)\.\.self\.offset\]\.try_into\(\)\.unwrap\(\)\)$", okv[0][1]) is not None,
-              "word:Ok", "result sites: %s" % [(r[0], r[1][:70], fmt(r[2])) for r in res], W)
-    dec = sites(f["body"], lambda n: n[0] == "assignop" and n[1] == "-" and "self.limit" in show(n[2]))
-    chk.check(R3, len(dec) == 1 and int_of(dec[0][0][3]) == 1 and set(atoms(dec[0][1], rules)) == {("HAS_LIMIT", True), ("LIMIT_REACHED", False)},
-              "word:limit-charged-once", "limit decrements: %s" % [(show(d[0]), d[1]) for d in dec], W)
-    # order: the limit check precedes the bounds check precedes the advance
-    order = [show_stmt(s)[:40] for s in f["body"][1]]
-    chk.check(R3, len(order) == 2 and order[0].startswith("if self.has_limit()") and order[1].startswith("if ((self.offset >="), "word:order",
-              "statements: %s" % order, W)
+    O, O4 = (1, 0, 0), (1, 0, 4)
+    for lim in decoderx.LIMITS:
+        for rem in decoderx.REMS:
+            try:
+                r = decoderx.evaluate(ctx, "word", lim, rem)
+            except Anchor as ex:
+                chk.bad(R3, "word(limit=%s, bytes left=%s)" % (lim, rem), "word() is not in an analysable shape: %s" % ex, W, key="C11:word-shape")
+                continue
+            inst = "word(limit=%s, bytes left=%s)" % (lim, rem)
+            if lim == "Zero":
+                good = r["outcome"] == "err" and r.get("error") == "LimitReached" and r.get("payload") == O and r["advance"] == (0, 0, 0) and r["limit_delta"] == 0
+                want = "Err(LimitReached(offset)), nothing consumed"
+            elif rem != "R4":
+                good = r["outcome"] == "err" and r.get("error") == "StreamExpected" and r.get("payload") == O and r["advance"] == (0, 0, 0)
+                want = "Err(StreamExpected(offset)), offset unchanged"
+            else:
+                good = r["outcome"] == "ok" and r.get("slice") == (O, O4) and r["advance"] == (0, 0, 4) and r["limit_delta"] == (-1 if lim == "Pos" else 0)
+                want = "Ok(le word of bytes[offset..offset+4]), offset += 4, limit %s" % ("charged one" if lim == "Pos" else "untouched")
+            got = {k: v for k, v in r.items() if k != "value"}
+            chk.check(R3, good, inst, "word() yields %s, expected %s" % (got, want), W, key="C11:word:%s:%s" % (lim, rem), sample=got if rem == "R4" else None)
 
-    R4 = chk.rule("R-LIMIT", "set_limit(n) stores Some(n), clear_limit() stores None, has_limit() = is_some, limit_reached() = (Some(0)); "
-                  "string() scans at most limit*4 bytes and never beyond the buffer, reports LimitReached only when the limit (not the "
-                  "stream) ended the scan, and charges the limit with the words consumed")
-    shapes = {"set_limit": ["self.limit = Some(%s)"], "clear_limit": ["self.limit = None"], "has_limit": ["self.limit.is_some()"],
-              "limit_reached": ["if let Some(left) = self.limit { (left == 0) } else { false }"]}
-    for name, want_ in shapes.items():
-        f_ = dm[name]["fn"]
-        got = [show_stmt(s).rstrip(";") for s in f_["body"][1]]
-        w_ = [x % f_["sig"]["params"][1][0] if "%s" in x else x for x in want_]
-        alt = name == "limit_reached" and got in (["(self.limit == Some(0))"], ["match self.limit { Some(left) => (left == 0), None => false }"], ["matches!(self.limit, Some(0))"])
-        chk.check(R4, got == w_ or alt, "Decoder::" + name, "body is %s" % got, raw.where(name, "Decoder"), sample=got)
+    R4 = chk.rule("R-LIMIT", "set_limit(n) stores Some(n), clear_limit() stores None, has_limit() <=> a limit is set, limit_reached() <=> the "
+                  "limit is Some(0) (abstractly interpreted); string() scans at most limit*4 bytes and never beyond the buffer, reports "
+                  "LimitReached only when the limit (not the stream) ended the scan, and charges the limit with the words consumed")
+    for lim in decoderx.LIMITS:
+        for name, want in (("has_limit", lim != "None"), ("limit_reached", lim == "Zero")):
+            try:
+                r = decoderx.evaluate(ctx, name, lim, "R4")
+                good = r["value"] is want and r["advance"] == (0, 0, 0) and r["limit"] == lim and r["limit_delta"] == 0
+                what = "%s() with limit %s yields %r" % (name, lim, r["value"])
+            except Anchor as ex:
+                good, what = False, "not analysable: %s" % ex
+            chk.check(R4, good, "%s(limit=%s)" % (name, lim), what, raw.where(name, "Decoder"))
+        for name, want in (("clear_limit", "None"),):
+            try:
+                r = decoderx.evaluate(ctx, name, lim, "R4")
+                good = r["limit"] == want and r["advance"] == (0, 0, 0)
+                what = "%s() leaves the limit %s" % (name, r["limit"])
+            except Anchor as ex:
+                good, what = False, "not analysable: %s" % ex
+            chk.check(R4, good, "%s(limit=%s)" % (name, lim), what, raw.where(name, "Decoder"))
+        try:
+            r = decoderx.evaluate(ctx, "set_limit", lim, "R4")
+            arg = dm["set_limit"]["fn"]["sig"]["params"][1][0]
+            good = r["limit"] == ("Some", arg) and r["advance"] == (0, 0, 0)
+            what = "set_limit leaves the limit %s" % (r["limit"],)
+        except Anchor as ex:
+            good, what = False, "not analysable: %s" % ex
+        chk.check(R4, good, "set_limit(limit=%s)" % lim, what, raw.where("set_limit", "Decoder"))
     sf = dm["string"]["fn"]
     WS = raw.where("string", "Decoder")
     body = [show_stmt(s) for s in sf["body"][1]]
